@@ -350,7 +350,16 @@ class Gen:
     def e_call(self, ty, d):
         # create a fresh helper fn returning ty
         np = self.rng.randint(1, 3)
-        params = [(self.fresh("p"), self.rand_type(1), self.chance(0.3)) for _ in range(np)]
+        # parameter names are often names that are also visible at the call site (the callee has its own scope)
+        visible = [v[0] for v in self.vars_of(lambda t, m: True) if v[0] != "_" and v[0] not in self.no_shadow]
+        self.rng.shuffle(visible)
+        names = []
+        for _ in range(np):
+            if visible and self.chance(0.6):
+                names.append(visible.pop())
+            else:
+                names.append(self.fresh("p"))
+        params = [(n, self.rand_type(1), self.chance(0.3)) for n in names]
         name = self.fresh("f")
         saved = (self.scopes, self.no_struct)
         self.scopes, self.no_struct = [{}], 0
@@ -405,11 +414,12 @@ class Gen:
             return PLit(BOOL, self.rng.randint(0, 1))
         if isinstance(ty, TInt):
             if self.chance(0.5):
-                return PLit(ty, self.int_lit(ty).v)
+                return PLit(ty, self.int_lit(ty).v, suffix=self.chance(0.7))
             a, b = sorted([self.int_lit(ty).v, self.int_lit(ty).v])
+            sfx = self.chance(0.7) or not (a >= 0 or b < 0)
             if a == b or self.chance(0.5):
-                return PRange(ty, a, b, True)
-            return PRange(ty, a, b, False)
+                return PRange(ty, a, b, True, suffix=sfx)
+            return PRange(ty, a, b, False, suffix=sfx)
         if isinstance(ty, TTup):
             return PTup([self.any_pattern(t, d - 1) for t in ty.elems])
         if isinstance(ty, TStruct):
